@@ -160,6 +160,9 @@ def t_rainfed_as(kind):
             ir = {"method": 5, "kw": {"depth": 0}}
         elif kind == "empty_schedule":
             ir = {"method": 3, "kw": {}, "schedule": []}
+        elif kind == "default_schedule":
+            s0 = A._d(spec["start"])
+            ir = {"method": 3, "kw": {}, "default_schedule_after_inplace_fill": [[A._f(s0 + __import__("datetime").timedelta(days=k)), 25.0] for k in (6, 12, 370)]}
         elif kind == "maxirr0_smt":
             ir = {"method": 1, "kw": {"SMT": [80] * 4, "MaxIrr": 0}}
         elif kind == "maxirr0_const":
@@ -220,6 +223,7 @@ TRANSFORMS = {
     "wetsurf_net_irrigation": t_wetsurf_net,
     "rainfed_as_depth0": t_rainfed_as("depth0"),
     "rainfed_as_empty_schedule": t_rainfed_as("empty_schedule"),
+    "rainfed_as_default_schedule_after_another_was_filled_in_place": t_rainfed_as("default_schedule"),
     "rainfed_as_maxirr0_smt": t_rainfed_as("maxirr0_smt"),
     "rainfed_as_maxirr0_const": t_rainfed_as("maxirr0_const"),
     "rainfed_as_maxseason0_interval": t_rainfed_as("maxseason0_int"),
@@ -298,11 +302,11 @@ def run(scn):
 
 def describe(tier):
     return {
-        "rule": f"{len(BASES) + len(THERMAL_BASES)} bases (rainfed on clay / with off-season / with a water table; threshold; interval; net; constant depth; schedule with bunds; constant depth and threshold irrigation with a partially wetted surface; rainfed bunds; three THERMAL-TIME crops whose weather-derived first season is much longer or shorter than the nominal calendar length in the crop table, the explicit default harvest date there computed by the independent degree-day model) x each of 24 neutral "
+        "rule": f"{len(BASES) + len(THERMAL_BASES)} bases (rainfed on clay / with off-season / with a water table; threshold; interval; net; constant depth; schedule with bunds; constant depth and threshold irrigation with a partially wetted surface; rainfed bunds; three THERMAL-TIME crops whose weather-derived first season is much longer or shorter than the nominal calendar length in the crop table, the explicit default harvest date there computed by the independent degree-day model) x each of 25 neutral "
                 "transformations (mulch / bund / CN-percentage parameters with the feature off, in the season and the fallow struct; parameters of non-selected strategies "
                 "incl. a schedule; efficiency and wetted fraction without irrigation; mulches on with cover 0 or factor 0; depth 0, empty schedule, daily or seasonal "
                 "maximum 0 (each equivalent to rainfed); explicit default latest-harvest date) alone and " + ("every 7th pair" if tier == "quick" else "ALL pairs") + "; all four tables bitwise equal to the base run.",
-        "bound": "singles complete; pairs " + ("1/7" if tier == "quick" else "complete (276 per base)"),
+        "bound": "singles complete; pairs " + ("1/7" if tier == "quick" else "complete (300 per base)"),
         "exhaustive": True,
         "witnesses": WITNESSES,
         "assumptions": ["a transformation is skipped on a base to which it does not apply (e.g. 'depth 0 = rainfed' on an irrigated base)"],
